@@ -65,6 +65,12 @@ impl Directory {
                 file_numbers.push(seq_number);
             }
         }
+        #[cfg(mrecordlog_verif)]
+        for file_name in crate::verif_hooks::fs::virtual_dir_entries(dir_path) {
+            if let Some(seq_number) = filename_to_position(&file_name) {
+                file_numbers.push(seq_number);
+            }
+        }
         let files = if let Some(files) = FileTracker::from_file_numbers(file_numbers) {
             files
         } else {
@@ -97,7 +103,7 @@ impl Directory {
             let filepath = filepath(&self.dir, &file);
             info!(file=%filepath.display(), "gc remove file");
             #[cfg(mrecordlog_verif)]
-            crate::verif_hooks::fs::on_remove_file(&filepath)?;
+            let filepath = crate::verif_hooks::fs::on_remove_file(&filepath)?;
             std::fs::remove_file(&filepath)?;
         }
         Ok(())
